@@ -372,7 +372,7 @@ def prefix_named_targets_case(pr):
         pr.clear_log()
         r = pr.run(*names)
         if pr.log():
-            return {"property": ["C18", "C12"], "expected": "`--clean %s` touches only %s's state: afterwards every target is skipped" % (victim, victim), "observed": "log %s" % pr.log(), "zinoma": r.brief()}
+            return {"property": ["C18", "C12", "C03"], "expected": "`--clean %s` touches only %s's state: afterwards every target is skipped" % (victim, victim), "observed": "log %s" % pr.log(), "zinoma": r.brief()}
     return None
 
 
